@@ -7,8 +7,10 @@ def showEv : Event → String
   | .deliver x => s!"deliver {x.name}" | .connect x => s!"connect {x.name}" | .turn1 x => s!"turn1 {x.name}"
   | .sigrec x => s!"sigrec {x.name}" | .hs l => s!"hs {l}" | .kcmf l => s!"kcmf {l}" | .kcml l => s!"kcml {l}"
   | .lose x l => s!"lose {x.name} {l}"
+  | .write x => s!"write {x.name}" | .tick x => s!"tick {x.name}"
+  | .silence x l => s!"silence {x.name} {l}" | .more x l => s!"more {x.name} {l}"
 
-partial def bfsP (frontier : Array Sys) (seen : Std.HashMap Sys (Option (Sys × Event))) (limit : Nat)
+partial def bfsP (p : Abs) (frontier : Array Sys) (seen : Std.HashMap Sys (Option (Sys × Event))) (limit : Nat)
     : Std.HashMap Sys (Option (Sys × Event)) × Array (Sys × Event) := Id.run do
   let mut seen := seen
   let mut frontier := frontier
@@ -16,8 +18,8 @@ partial def bfsP (frontier : Array Sys) (seen : Std.HashMap Sys (Option (Sys × 
   while !frontier.isEmpty do
     let mut next : Array Sys := #[]
     for s in frontier do
-      for e in allEvents do
-        if enabledK s e then
+      for e in allEventsP p do
+        if enabledP p s e then
           if !safeStep s e then
             bad := bad.push (s, e)
           let t := (step s e).1
@@ -34,19 +36,20 @@ partial def traceTo (seen : Std.HashMap Sys (Option (Sys × Event))) (s : Sys) (
   | some (some (p, e)) => traceTo seen p (e :: acc)
   | _ => acc
 
-def grow (L : List Sys) (G : Std.HashSet Sys) : Std.HashSet Sys :=
+def grow (p : Abs) (L : List Sys) (G : Std.HashSet Sys) : Std.HashSet Sys :=
   L.foldl (fun g s =>
     if g.contains s then g
-    else if allEvents.any (fun e => coop s e && enabledK s e && G.contains (step s e).1) then g.insert s else g) G
+    else if (allEventsP p).any (fun e => coop s e && enabledP p s e && G.contains (step s e).1) then g.insert s else g) G
 
-def iter : Nat → List Sys → Std.HashSet Sys → Std.HashSet Sys
+def iter (p : Abs) : Nat → List Sys → Std.HashSet Sys → Std.HashSet Sys
   | 0, _, G => G
-  | n + 1, L, G => let G' := grow L G; if G'.size == G.size then G else iter n L G'
+  | n + 1, L, G => let G' := grow p L G; if G'.size == G.size then G else iter p n L G'
 
 def main (args : List String) : IO Unit := do
   let limit := (args.head?.bind String.toNat?).getD 3000000
-  let seen0 : Std.HashMap Sys (Option (Sys × Event)) := inits.foldl (fun h s => h.insert s none) {}
-  let (seen, bad) := bfsP inits.toArray seen0 limit
+  let p : Abs := if args.contains "S" then absS else absK
+  let seen0 : Std.HashMap Sys (Option (Sys × Event)) := p.inits.foldl (fun h s => h.insert s none) {}
+  let (seen, bad) := bfsP p p.inits.toArray seen0 limit
   IO.println s!"states {seen.size} unsafe-steps {bad.size}"
   let mut kinds : Std.HashMap String Nat := {}
   for (s, e) in bad.toList.take 3 do
@@ -61,8 +64,8 @@ def main (args : List String) : IO Unit := do
   let mut nCand := 0
   let mut firstCand : Option (Sys × Event) := none
   for (s, _) in seen.toList do
-    for e in allEvents do
-      if enabledK s e then
+    for e in allEventsP p do
+      if enabledP p s e then
         let oc := (step s e).2
         if isStoppedAccept oc then nAcc := nAcc + 1
         if isStoppedCandidate oc then
@@ -77,7 +80,7 @@ def main (args : List String) : IO Unit := do
   | none => pure ()
   let L := seen.toList.map (·.1)
   if args.contains "trap" then
-    let G := iter 400 L (Std.HashSet.ofList (L.filter goal))
+    let G := iter p 400 L (Std.HashSet.ofList (L.filter goal))
     let traps := L.filter (fun s => !G.contains s)
     IO.println s!"goal-states {(L.filter goal).length} can-reach-goal {G.size} traps {traps.length}"
     for s in traps.take 4 do
